@@ -545,3 +545,65 @@ Example C15_fifo_no_overtaking_example :
   queue_ids m0 = [1; 2] /\ snd (fst (o_sync_wake m0 2)) = RNotEnabled /\ snd (fst (o_sync_wake m0 1)) = RId 0.
 Proof. vm_compute. repeat split; reflexivity. Qed.
 Print Assumptions C15_fifo_no_overtaking_example.
+
+(** * Round 6: the trace theorems as functions of the TOP-LEVEL op list *)
+From V Require Import StreamsMap.ProofsProj.
+
+(** [proj_in uni (init_sm client mb mu) ops []] is the functional projection of a streams-map history
+    onto its incoming map of type [uni]: the steps that reached that map since the last ResetFor0RTT
+    (with their results and queued frames). Running the four-map structure and looking at the map is
+    running the single-map model on the projection; hence, at the newStreamsMap level, for every API
+    history: Accept hands out first, first+4, ... each once (whatever the callers), the MAX_STREAMS
+    frames are a strictly increasing chain from the configured limit to the limit now enforced, the
+    map holds at most N streams and, below 2^60, streams + remaining credit = N. *)
+Theorem C15_incoming_streams_map_trace : forall client mb mu ops s outs (uni : bool),
+  0 <= mb -> 0 <= mu -> Forall top_ok ops ->
+  trun (init_sm client mb mu) ops = (s, outs) ->
+  let N := (if uni then mu else mb) : Z in
+  let P := proj_in uni (init_sm client mb mu) ops [] in
+  let iops := map fst P in let iouts := map snd P in
+  irun (init_in uni client N) iops = (s_in s uni, iouts) /\
+  accepted iops iouts = ids_from (first_incoming uni client) (length (accepted iops iouts)) /\
+  i_nextAccept (s_in s uni) = first_incoming uni client + 4 * zlen (accepted iops iouts) /\
+  NoDup (map snd (accepted_by iops iouts)) /\
+  chain uni N (frames_of iouts) (in_adv (s_in s uni)) /\
+  zlen (i_streams (s_in s uni)) <= N /\
+  (in_opened (s_in s uni) + N <= SM_MaxStreamCount -> in_credit (s_in s uni) + zlen (i_streams (s_in s uni)) = N).
+Proof. exact sm_incoming_trace. Qed.
+Print Assumptions C15_incoming_streams_map_trace.
+
+Example C15_incoming_streams_map_trace_example :
+  map fst (proj_in false (init_sm false 1 1)
+             [ORecv 0; OOpen false; OAcceptCall false 7; ORecv 2; ODelete 0; ORecv 4] []) =
+  [IGetOrOpen 0; IAccept 7; IDelete 0; IGetOrOpen 4].
+Proof. vm_compute. reflexivity. Qed.
+Print Assumptions C15_incoming_streams_map_trace_example.
+
+(** The same for the outgoing maps: [proj_out uni (init_sm client mb mu) ops []] is the projection
+    of the top-level history onto the outgoing map of type [uni] since the last ResetFor0RTT (with
+    the map's own results and frames; a transport-parameter op contributes one SetMaxStream to each
+    map). At the newStreamsMap level, for every API history: the IDs handed out by OpenStream /
+    OpenStreamSync are first, first+4, ... each within the peer's limit, nextStream counts them, the
+    STREAMS_BLOCKED frames name strictly increasing limits and the last one names the current limit
+    iff blockedSent, and the callers served after waiting are a subsequence of the arrivals. *)
+Theorem C15_outgoing_streams_map_trace : forall client mb mu ops s outs (uni : bool),
+  0 <= mb -> 0 <= mu -> Forall top_ok ops ->
+  trun (init_sm client mb mu) ops = (s, outs) ->
+  let P := proj_out uni (init_sm client mb mu) ops [] in
+  let oops := map fst P in let oouts := map snd P in
+  orun (init_out uni client) oops = (s_out s uni, oouts) /\
+  opened oops oouts = ids_from (first_outgoing uni client) (length (opened oops oouts)) /\
+  Forall (fun id => id <= o_max (s_out s uni)) (opened oops oouts) /\
+  o_next (s_out s uni) = first_outgoing uni client + 4 * zlen (opened oops oouts) /\
+  (exists B, bchain uni (-1) (frames_of oouts) B /\
+     (if o_blockedSent (s_out s uni) then B = out_limit (s_out s uni) else B < out_limit (s_out s uni))) /\
+  subseq (served oops oouts) (arrivals oops oouts).
+Proof. exact sm_outgoing_trace. Qed.
+Print Assumptions C15_outgoing_streams_map_trace.
+
+Example C15_outgoing_streams_map_trace_example :
+  map fst (proj_out true (init_sm true 1 1)
+             [OTransportParams 1 2 false; OOpen true; OOpen false; OReset; OUseReset; OMaxStreams true 1; OOpen true] []) =
+  [OpSetMax 2; OpOpen].
+Proof. vm_compute. reflexivity. Qed.
+Print Assumptions C15_outgoing_streams_map_trace_example.
